@@ -104,6 +104,7 @@ var props = map[string]*prop{
 			{name: "pairs-386-children", run: "^TestC13_Pairs$", shards: [2]int{4, 8}, child386: true},
 			{name: "pairs", run: "^TestC13_Pairs$", shards: [2]int{8, 16}},
 			{name: "histories", run: "^TestC13_Histories$", shards: [2]int{8, 16}, checks: [2]int{40, 1500}},
+			{name: "idle", run: "^TestC13_Idle$", thoroughOnly: true},
 			{name: "machine", run: "^TestC13_Machine$", shards: [2]int{4, 16}, checks: [2]int{600, 12000}},
 		},
 		assumptions: baseAssumptions,
